@@ -458,7 +458,7 @@ def run_histories(ctx, cases, cache=10000):
     return [o.get("events", []) if "_fatal" not in o else [] for o in outs]
 
 
-def eval_cases(ctx, name, cases, outs, shard=40, strict=False):
+def eval_cases(ctx, name, cases, outs, shard=40, strict=True):
     terms = [cq_case(e, o) for e, o in zip(cases, outs)]
     defs = {"SM": "spec_accepts_strict" if strict else "spec_accepts"}
     if ctx.model_ok:
